@@ -70,15 +70,30 @@ func (e *Engine) specDecls() string {
 		}
 		var ps []string
 		for _, p := range sf.Params {
-			s, t := ctx.specSort(p.Sort)
+			if strings.HasPrefix(p.Sort, "heap:") {
+				cc := *ctx
+				cc.pkg = e.typesPkg(sf.PkgPath)
+				for _, ks := range e.bundle(strings.TrimPrefix(p.Sort, "heap:"), &cc) {
+					ps = append(ps, ks[1])
+				}
+				continue
+			}
+			pc := *ctx
+			pc.pkg = e.typesPkg(sf.PkgPath)
+			s, t := pc.specSort(p.Sort)
 			if s == "" && t != nil {
 				ps = append(ps, flatSorts(t)...)
 			} else {
 				ps = append(ps, s)
 			}
 		}
-		rs, _ := ctx.specSort(sf.Ret)
+		rc := *ctx
+		rc.pkg = e.typesPkg(sf.PkgPath)
+		rs, _ := rc.specSort(sf.Ret)
 		fmt.Fprintf(&sb, "(declare-fun %s (%s) %s)\n", sym(sf.Name), strings.Join(ps, " "), rs)
+	}
+	for _, ln := range e.RawSMTLate {
+		sb.WriteString(ln + "\n")
 	}
 	for _, ax := range e.Axioms {
 		if ax.Lemma {
